@@ -361,7 +361,8 @@ def check_node2(hist):
                 frame = RN.encode(dict(msg=1, vendor=None, dadr=None, sadr=None, er=False, prio=0, hop=None, data=RN.encode_msg(1, dict(nets=st_[3]))))
                 inject(port, ROUTERS[st_[2]], frame, True)
                 for d in st_[3]:
-                    model[(nets[port], d)] = st_[2]
+                    if d not in nets:
+                        model[(nets[port], d)] = st_[2]
             elif k == "sadr":
                 frame = RN.encode(dict(msg=None, vendor=None, dadr=None, sadr=(st_[3], b"\x21"), er=False, prio=0, hop=None, data=b"\x10\x08"))
                 inject(port, ROUTERS[st_[2]], frame, False)
@@ -552,6 +553,9 @@ def node2_alphabet():
         for r in "AB":
             for ds in ([10], [20], [10, 20]):
                 a.append(["iam", port, r, ds])
+            # an announcement that also names the OTHER attached network of this node (a parallel router between the two would say so)
+            a.append(["iam", port, r, [2 if port == 0 else 1, 10]])
+            a.append(["iam", port, r, [20, 2 if port == 0 else 1]])
             a.append(["forget_router", port, r])
             for d in (10, 20):
                 a.append(["sadr", port, r, d])
